@@ -85,6 +85,12 @@ def _x_to_db(cfg, x):
 @st.composite
 def _curves_st(draw, tier):
     cfg = draw(_cfg_st(tier))
+    if cfg["cls"] in ("PSK", "QAM") and cfg.get("set_phi") is None and \
+            draw(st.integers(0, 5)) == 0:
+        # the modulator object was created for ANOTHER order and given this
+        # constellation through the public setConstellation
+        cfg = dict(cfg, reinit_from=draw(st.sampled_from(
+            [4, 16, 64, 256] if cfg["cls"] == "QAM" else [2, 4, 8, 16, 64])))
     mode = draw(st.sampled_from(["list", "aimed", "aimed", "grid"]))
     if mode == "list":
         snr = dict(mode="list", values=draw(st.lists(
